@@ -68,8 +68,12 @@ def combine_latest_(*sources: Observable[Any]) -> Observable[tuple[Any, ...]]:
                 with lock:
                     done(i)
 
+            def on_error(error: Exception) -> None:
+                with lock:
+                    observer.on_error(error)
+
             subscriptions[i].disposable = sources[i].subscribe(
-                on_next, observer.on_error, on_completed, scheduler=scheduler
+                on_next, on_error, on_completed, scheduler=scheduler
             )
 
         for idx in range(n):
